@@ -587,6 +587,11 @@ def _elements_origin_ok(ctx, p, b, fn, src, param_obls, depth=0):
             if not ok:
                 return ok, why
             continue
+        if n[0] == 'call' and n[1].rsplit('::', 1)[-1] in ('map', 'rev', 'into_iter', 'skip', 'cloned', 'copied', 'inspect', 'take'):
+            # a lazy chain handed to `extend`: the elements are what its innermost `map` closure returns
+            ok, why = _collected_origin_ok(ctx, p, b, ctx.fn(b), T(n), param_obls)
+            if ok:
+                continue
         ok, why = _state_origin_ok(ctx, p, b, T(n), param_obls)
         if not ok:
             return False, 'elements with origin %s (not the states of an extracted path, not node / start states) are added to the ' \
